@@ -60,4 +60,5 @@ def all(
     a = numpoly.aspolynomial(a)
     coefficients = numpy.any(numpy.asarray(a.coefficients), axis=0)
     index = numpy.asarray(coefficients, dtype=bool)
-    return numpy.all(index, axis=axis, out=out, keepdims=keepdims)
+    where = kwargs.get("where", True)
+    return numpy.all(index, axis=axis, out=out, keepdims=keepdims, where=where)
